@@ -106,6 +106,9 @@ func opPc(w *World, op *Op) {
 	if op.Gas != "" {
 		eop.Gas = op.Gas
 	}
+	if op.Price != "" {
+		eop.Price = op.Price
+	}
 	s := w.BuildEthOp(&eop)
 	s.PcCall = &PcCall{Target: target, Kind: kind, Method: op.Mut, Data: data, Plan: plan, EOA: wl.Addr, Note: op.Note}
 	w.R.Count("o:pc_" + kind + "_" + op.Mut)
